@@ -14,5 +14,6 @@ INVARIANT HistoryIndependent
 INVARIANT DropByNameIsByIndex
 INVARIANT EncodeDropCommute
 INVARIANT DropNothing
-INVARIANT Emit
+INVARIANT EmitStack
+INVARIANT EmitHist
 CHECK_DEADLOCK FALSE
